@@ -16,13 +16,13 @@ CHECKS = {
    text="Decides for all orders of CONNECT/AUTH/WILLTOPIC/WILLMSG: no MQTT CONNECT before an accepted PLAIN AUTH when auth is on; credentials written only there, from DecodePlain's results, on every continuing path; never written by client packets when auth is off; unknown method answered with 'not supported' and no CONNECT.",
    note="Trusted: go/ssa; the phase field is found by role (integer field of the struct holding the *ConnectPacket that its methods compare with constants). Does not decide what the broker does with the credentials.", ref="4/C08"),
  "C09": dict(tech=TECH+"same phase transition relation as C08 searched for will-protocol order and at-most-one-CONNECT; origin tracing for CONNECT fields; dispatcher exploration for the CONNACK mapping",
-   text="Decides ordering and multiplicity over all packet orders (WILLTOPICREQ -> WILLTOPIC -> WILLMSGREQ -> WILLMSG -> one CONNECT; nothing of it without the will flag), field faithfulness of the CONNECT, and the CONNACK code mapping for every broker return code explored (0..6, 0x80, 0xfe, 0xff).",
+   text="Decides ordering and multiplicity over all packet orders (WILLTOPICREQ -> WILLTOPIC -> WILLMSGREQ -> WILLMSG -> one CONNECT; nothing of it without the will flag), field faithfulness of the CONNECT, and the CONNACK code mapping for every broker return code explored (0..6, 0x80, 0xfe, 0xff). A CONNECT from a client that is not sleeping always starts a new exchange and is never answered locally with 'accepted'.",
    note="Trusted: go/ssa. Timeouts are C10's.", ref="4/C09"),
  "C11": dict(tech=TECH+"who-may-write rule for connections, per-state path exploration of the MQTT-SN sender and of the PINGREQ/CONNECT/PINGRESP handlers (event-order rule), loop-shape rule for the flush, lockset (must-hold locks per field access) for the buffer",
-   text="Nothing-sent-while-asleep and the wake-up order (Awake, flush in index order, clear, PINGRESP, Asleep again) are decided on every path of the handlers for every state; the race clause by a lockset that is schedule independent. Delivered-once under retry timers firing while asleep is a history property and is not decided.",
+   text="Nothing-sent-while-asleep and the wake-up order (Awake, flush in index order, clear, PINGRESP, Asleep again) are decided on every path of the handlers for every state; the race clause by a lockset that is schedule independent. Delivered-once under retry timers firing while asleep is a history property and is not decided. Every iteration of the flush loop reaches the send; the session-end goroutine sends nothing to a sleeping client.",
    note="Trusted: go/ssa. The sleep buffer is found by type ([]packets.Packet field of a gateway struct). Known finding: the buffer has no lock (C11-R3).", ref="4/C11"),
  "C12": dict(tech=TECH+"path exploration of the DISCONNECT(duration) and PINGREQ handlers over a grid of (duration, keep-alive) valuations; origin tracing of the timer's stop function and of the pinger period",
-   text="Only the wiring clauses: PINGREQ forwarded when active/awake, a pinger armed on every path whenever duration > keep-alive, stopped by its own stop function after exactly the announced duration, pinging every keep-alive seconds. The 1.5x keep-alive window itself is a bound over timed histories that no static argument in reach decides; sleep cycles not covered by a pinger are a known finding.",
+   text="Only the wiring clauses: PINGREQ forwarded when active/awake, a pinger armed on every path whenever duration > keep-alive, stopped by its own stop function after exactly the announced duration, pinging every keep-alive seconds. The 1.5x keep-alive window itself is a bound over timed histories that no static argument in reach decides; sleep cycles not covered by a pinger are a known finding. The timer that stops the sleep pinger is never disarmed.",
    note="Trusted: go/ssa. Grid of valuations is finite (keep-alive 10; durations 1..1000) but the guards are comparisons of the two cells only.", ref="4/C12"),
  "C14": dict(tech=TECH+"session automaton extraction (path exploration of both dispatchers), type-flow sets for every argument of the MQTT sender, who-may-write rule for connections",
    text="Decides the property at the structural level for all histories and termination causes: a *DisconnectPacket can reach the MQTT sender only on the path handling a client DISCONNECT with Duration 0, every other send site can only carry other packet types, and nothing else writes to a connection.",
@@ -31,13 +31,13 @@ CHECKS = {
    text="Every instruction that can panic while decoding a datagram is an obligation and each is discharged by a named argument; obligations == discharged is required, so a green result is a proof (relative to the trusted base) that no byte string makes ReadPacket panic. The argument does not depend on the 8192 bound.",
    note="Trusted base: go/types, go/ssa, the installed Go compiler's bounds-check elimination, the io.Reader contract (the one assumed obligation), fmt not panicking. Thorough adds GOARCH=386.", ref="4/C20"),
  "C21": dict(tech=TECH+"codec layout extraction by finite-domain path exploration of every Pack/Unpack (28 types x variants), structural mask/shift extraction for flags, sibling comparison encoder vs decoder, header threshold evaluation, shape rule for the short-topic codec",
-   text="Encoder/decoder table agreement (fields, order, offsets, widths, flag masks/shifts, length formula, type tags, header form threshold, short-topic byte order). Necessary for round-trip equality and sufficient for all fields handled value-independently; equality for every concrete value is not decided.",
+   text="Encoder/decoder table agreement (fields, order, offsets, widths, flag masks/shifts, length formula, type tags, header form threshold, short-topic byte order). Necessary for round-trip equality and sufficient for all fields handled value-independently; equality for every concrete value is not decided. Also: decoders cannot panic (C20's bounds obligations re-run) and the smallest legal packets (one-octet variable fields) are accepted at the same offsets.",
    note="Trusted: go/ssa; variable-length fields are given length 3 while exploring (layout does not depend on it).", ref="4/C21"),
  "C22": dict(tech=TECH+"decoder layout extraction (as C21) compared with a specification table frozen in the checker; exploration of Header.Unpack/HeaderLength for both header forms; shape rule for ReadPacket's body slice",
    text="Position faithfulness of every decoded field for every accepted datagram, and the body offset equal to the parsed header size for both header forms whatever the length value.",
    note="Trusted: go/ssa and the transcription of MQTT-SN 1.2 section 5 / doc/auth.md into the checker's table.", ref="4/C22"),
  "C18": dict(tech=TECH+"dominance (gate) rule on the completion sites, lockset analysis (must-hold locks per instruction + locks held at all call sites) for the timer callback versus Success/Fail and for every timer/state field, path rule 'nothing after completion', publish-before-use rule for AfterFunc timers",
-   text="At-most-once completion, callback-before-Done, no retry after completion on the same path and atomically with respect to Success/Fail, and the race / nil clauses are decided for all schedules because locksets and dominance do not depend on the schedule. The sleep transaction's unsynchronised fields and the exported State/Data fields are known findings.",
+   text="At-most-once completion, callback-before-Done, no retry after completion on the same path and atomically with respect to Success/Fail, and the race / nil clauses are decided for all schedules because locksets and dominance do not depend on the schedule. The sleep transaction's unsynchronised fields and the exported State/Data fields are known findings. The completion callback is called nowhere but at a completion site.",
    note="Trusted: go/ssa. Locks are identified per (type, field), not per instance. Accesses on a freshly allocated object inside its constructor are exempt.", ref="4/C18"),
  "C19": dict(tech=TECH+"path exploration of the retry timer callback and of Proceed over a 5x5 grid of (retries so far, retry count) valuations; origin tracing of every timer duration; lockset for the counter",
    text="Counting and wiring clauses: callback iff retries so far < retry count, else ErrNoMoreRetries; +1 per expiry; Proceed resets and re-arms once on every path; durations are the constructor's values; a finished transaction's expiry is a no-op. Wall-clock statements are not decided.",
@@ -49,10 +49,10 @@ CHECKS = {
    text="Translation faithfulness and the ordering REGISTER -> accepted REGACK -> map update -> PUBLISH are decided on every path. That the client really accepted the REGISTER, and delivery under loss, are history properties left to C16/C26.",
    note="Trusted: go/ssa. Lookup consistency (GetTopicID vs GetTopicName) is C05's rule.", ref="4/C02"),
  "C03": dict(tech=TECH+"session automaton extraction for the one-to-one table, per-field origin tracing for message IDs / filters / QoS, guard analysis of the SUBACK mapping, exploration of the wildcard test over its two predicates, key-agreement rule for completion callbacks",
-   text="Per-case packet type, message ID, filter resolution, requested/granted QoS, acceptance edge (return code <= 2) and topic ID are decided for all inputs; timing between exchanges is not.",
+   text="Per-case packet type, message ID, filter resolution, requested/granted QoS, acceptance edge (return code <= 2) and topic ID are decided for all inputs; timing between exchanges is not. A packet that is not forwarded may only be answered by a refusal (non-accepted return code), never by an acknowledgement the broker did not send.",
    note="Trusted: go/ssa; the reserved topic-ID type is excluded for SUBSCRIBE/UNSUBSCRIBE only because the decoder's own exploration shows it is rejected (checked on every run).", ref="4/C03"),
  "C04": dict(tech=TECH+"constant evaluation of the allocator range, provenance (origin) rule for every handed-out topic ID, exhaustive exploration of the allocator wrapper over (sticky flag, overflow, predefined collision) valuations with symbolic IDs, who-may-write rule for the registered-topics map",
-   text="Range, provenance, collision check on the very ID returned, refusal on overflow and stickiness of exhaustion are decided structurally; the arithmetic of IDSequence.Next is C29's.",
+   text="Range, provenance, collision check on the very ID returned, refusal on overflow and stickiness of exhaustion are decided structurally; the arithmetic of IDSequence.Next is C29's. At every allocator call the ID is used only where the call's error was compared with nil (or in a refusing reply).",
    note="Trusted: go/ssa. The allocator loop is explored for up to two probes (a third iteration repeats the same blocks).", ref="4/C04"),
  "C05": dict(tech=TECH+"exhaustive exploration of GetTopicName over the 16 presence combinations of its four map lookups; derivation rule for every 'found' return of GetTopicID (range key + value equality + shadowing lookup in the client's own map)",
    text="Both clauses are decided for all maps, client IDs and names because the argument is value independent (presence = comma-ok results; entry values unconstrained).",
@@ -61,43 +61,43 @@ CHECKS = {
    text="Decides whether independence of the two ID spaces is enforced by construction. It is not (one uint16 map shared by both sides' exchanges, unconditional deletes, overwriting stores): these are recorded as known findings, each keyed by its construct; a new sharing site, a new unconditional delete, an unchecked assertion or a free-ID search that does not probe its candidate is a new violation.",
    note="Trusted: go/ssa. Behaviour of one particular interleaving is not decided.", ref="4/C06"),
  "C10": dict(tech=TECH+"constant evaluation of the connect transaction's timeout, must-pass-through path rule for the watcher spawn, exploration of the watcher over the possible transaction errors, defer/return path rule for the broker connection",
-   text="The reaping mechanism is wired on every path and for every stopping point of the exchange (the argument does not depend on which packet was last). The numeric bound (5 s + poll interval) is scheduler/timer behaviour and is not decided.",
+   text="The reaping mechanism is wired on every path and for every stopping point of the exchange (the argument does not depend on which packet was last). The numeric bound (5 s + poll interval) is scheduler/timer behaviour and is not decided. The timed transaction's timer is never re-armed or reset after construction.",
    note="Trusted: go/ssa, time.AfterFunc, errgroup semantics (first non-nil error cancels the group).", ref="4/C10"),
  "C13": dict(tech=TECH+"must-pass-through path rules on the session function (Wait / deferred cancel / deferred Close), enumeration and classification of every blocking select, receive and send (Done() case and the root of its context), cycle rule for the connection wrapper's retry loop, path rule for the receive loops, session-automaton exploration for the shutdown DISCONNECT",
-   text="No-leak / join / close structure for every termination cause; the numeric bound and OS-level blocking inside net.Conn are not decided.",
+   text="No-leak / join / close structure for every termination cause; the numeric bound and OS-level blocking inside net.Conn are not decided. The client-connection context is cancelled on every path of the shutdown goroutine; receive loops return non-nil after a failed read.",
    note="Trusted: go/ssa, errgroup, context semantics.", ref="4/C13"),
  "C16": dict(tech=TECH+"identity/DUP rule on every gateway retry callback (path rule + type-flow of the stored step data), step-table extraction by exploring each handler per transaction state, origin tracing of the forwarded message IDs, shared rules for the REGISTER step and for the client's PUBREL/QoS 2 receive side",
    text="Each retransmission is the stored packet with DUP set, the per-step tables (required state, packet, side, next state) are the protocol's, wrong-state packets are inert, the budget stop is final and both endpoints have the handlers loss recovery depends on. End-to-end delivery for a given loss pattern and handler-exactly-once are history properties and are not decided.",
    note="Trusted: go/ssa. State constants are discovered from the code (the states the broker-PUBLISH case enters), not assumed.", ref="4/C16"),
  "C17": dict(tech=TECH+"exploration of the client dispatcher per (trigger, stored transaction type, transaction state); identity/DUP rule on every client retry callback; origin tracing of the PUBCOMP message ID; error-propagation rule; store-before-send event-order rule",
-   text="Success only on the acknowledgement in the right state, DUP and unchanged packet on retransmission, PUBREL always answered whatever is stored under its ID, step errors not dropped, transaction registered before the PUBLISH leaves. 'Within the retry budget' is timing and not decided.",
+   text="Success only on the acknowledgement in the right state, DUP and unchanged packet on retransmission, PUBREL always answered whatever is stored under its ID, step errors not dropped, transaction registered before the PUBLISH leaves. 'Within the retry budget' is timing and not decided. The receive loop never runs application callbacks synchronously, and the client never forgets a topic ID (so the PUBREL handler's lookup cannot start failing).",
    note="Trusted: go/ssa.", ref="4/C17"),
  "C27": dict(tech=TECH+"dominance rule for the callback selection (guarded by the matcher on that handler's route), exhaustive exploration of one recursion step of the matcher over its five predicates (an inductive argument over the route), key-agreement and inverse-function rules for store/delete, path rule delete-before-Success",
-   text="Only matching filters' callbacks run, unsubscribe removes exactly what subscribe stored, and the matcher's single step is the MQTT rule for '/', '+', '#' for all predicate valuations (which by structural induction is the matching relation).",
+   text="Only matching filters' callbacks run, unsubscribe removes exactly what subscribe stored, and the matcher's single step is the MQTT rule for '/', '+', '#' for all predicate valuations (which by structural induction is the matching relation). The store/delete helpers are unconditional (one filter is one subscription).",
    note="Trusted: go/ssa, strings.Split/Join. UTF-8 aspects of names are out of scope.", ref="4/C27"),
  "C28": dict(tech=TECH+"enumeration/classification of every blocking select, receive and send of package client (Done() case, context root), path rules (failed send -> Fail before the wait; Close -> cancel on every path), lock-balance rule at every return, key-agreement rule for completion callbacks, exploration of the sleep transaction's timer functions",
-   text="Absence of an unconditional wait for all gateway behaviours, and the structural causes of hangs (leaked lock, stale store slot, missed cancel). Numeric bounds and user callbacks are not decided.",
+   text="Absence of an unconditional wait for all gateway behaviours, and the structural causes of hangs (leaked lock, stale store slot, missed cancel). Numeric bounds and user callbacks are not decided. No gateway packet rewinds a retry budget (Proceed only in the state awaiting that packet).",
    note="Trusted: go/ssa.", ref="4/C28"),
  "C33": dict(tech=TECH+"dominance rules on the keep-alive loop's select cases (Stop / Reset only for Active / created stopped / tick pings), who-may-write rule for the client state, guard rule for ping retransmissions, slot-order rule for PINGRESP routing",
-   text="Gating and routing structure. Ping retransmissions that are not state-gated and the PINGRESP slot order (keep-alive steals the sleep transaction's PINGRESP) are genuine defects recorded as known findings; 'at least once per KeepAlive period' is timing and not decided.",
+   text="Gating and routing structure. Ping retransmissions that are not state-gated and the PINGRESP slot order (keep-alive steals the sleep transaction's PINGRESP) are genuine defects recorded as known findings; 'at least once per KeepAlive period' is timing and not decided. Every path through the tick case pings; the sleep transaction's reply handlers only log in states that do not await the reply.",
    note="Trusted: go/ssa, time.Ticker.", ref="4/C33"),
  "C30": dict(tech=TECH+"sibling comparison of the three CLI action closures: each explored for the four (file flag given, option flag given) combinations with symbolic map values, checked against the specified feature vector; shape rule for Merge",
-   text="All three tools read the file flag with ReadPredefinedTopicsFile, parse the option flag with ParsePredefinedTopicOptions, merge the options INTO the file mapping and hand that mapping to the gateway/client configuration and to their own lookups. YAML decoding is not decided.",
+   text="All three tools read the file flag with ReadPredefinedTopicsFile, parse the option flag with ParsePredefinedTopicOptions, merge the options INTO the file mapping and hand that mapping to the gateway/client configuration and to their own lookups. YAML decoding is not decided. A topic ID parsed from option text is refused when it does not fit 16 bits.",
    note="Trusted: go/ssa, urfave/cli flag lookup.", ref="4/C30"),
  "C31": dict(tech=TECH+"exhaustive finite-domain exploration of each tool's action closure over (--dtls, --insecure value/presence, --auth or --user presence/emptiness); guard rule and per-iteration event-order rule for CONNECT/AUTH in the client library",
-   text="All flag/env combinations are decided (the abstract domain is finite and fully enumerated; env aliases are part of the flag declarations), plus AUTH-iff-user and AUTH-right-after-every-CONNECT for two loop iterations of the connect routine. That DTLS actually encrypts is not decided.",
+   text="All flag/env combinations are decided (the abstract domain is finite and fully enumerated; env aliases are part of the flag declarations), plus AUTH-iff-user and AUTH-right-after-every-CONNECT for two loop iterations of the connect routine. That DTLS actually encrypts is not decided. The AUTH constructor returns a packet on every path.",
    note="Trusted: go/ssa, urfave/cli (Bool/IsSet semantics, environment aliases).", ref="4/C31"),
  "C15": dict(tech=TECH+"allocation-site rule for the accept loop (captured variables, per-iteration handler construction, own broker dial), who-may-write rule for everything shared between sessions (configuration struct, predefined-topics maps, configured slices and their aliases), no-mutable-package-state rule",
-   text="Data isolation for all interleavings: a handler shares with other sessions only the configuration, the predefined-topics maps and configured byte slices, and the rule shows that no instruction reachable in the repository writes to any of them after construction; no package-level variable is assigned outside init. No shared mutable state implies no interference through memory; interference through resource exhaustion or through the broker is not decided.",
+   text="Data isolation for all interleavings: a handler shares with other sessions only the configuration, the predefined-topics maps and configured byte slices, and the rule shows that no instruction reachable in the repository writes to any of them after construction; no package-level variable is assigned outside init. No shared mutable state implies no interference through memory; interference through resource exhaustion or through the broker is not decided. Also: no session code writes through a pointer held in the shared configuration (interprocedural taint), and a failed DTLS handshake of one peer never ends the accept loop.",
    note="Trusted: go/ssa. Shared objects are identified by type and field (configuration struct fields, map-typed PredefinedTopics, []byte fields assigned from configuration), not by names of helpers.", ref="4/C15"),
  "C23": dict(tech=TECH+"constructor-discipline rule for every composite literal of a packet type, type-flow sets of both MQTT-SN senders against the per-direction type table and the peer's dispatcher cases, codec length-formula rule (shared with C21), who-may-write rule for connections, must-pass-through size guard in the senders (constant <= transport maximum) and uint16 narrowing rule",
-   text="Form, direction, length-field and size-bound clauses for all histories: only constructor/decoder-built packets reach a sender, each side only sends types the other side handles, the length field equals the bytes written for every type and variant, one packet per datagram through the single sender, and every datagram passes a comparison against the transport maximum before it is written.",
+   text="Form, direction, length-field and size-bound clauses for all histories: only constructor/decoder-built packets reach a sender, each side only sends types the other side handles, the length field equals the bytes written for every type and variant, one packet per datagram through the single sender, and every datagram passes a comparison against the transport maximum before it is written. Connection wrappers forward one Write as one transport Write.",
    note="Trusted: go/ssa, bytes.Buffer. Type-flow is field-based and fails closed on unknown flows.", ref="4/C23"),
  "C24": dict(tech=TECH+"taint rules (sources: fields of decoded MQTT-SN packets; sinks: fields of MQTT packets reaching the MQTT sender; sanitisers: dominating guards evaluated over the 2-bit QoS domain and over the two wildcard predicates), phase-relation search shared with C09 for the will order, constant rules for protocol name/level and packet construction",
    text="No client-controlled value reaches a broker-bound field unsanitised: QoS fields bounded to 0-2, PUBLISH topics from lawful producers and wildcard-free, SUBSCRIBE/UNSUBSCRIBE filters non-empty, CONNECT will fields consistent with the will flag, PasswordFlag only with UsernameFlag, every packet built by NewControlPacket with the constant code of its asserted type. UTF-8 well-formedness of names and paho's encoder are not decided.",
    note="Trusted: go/ssa, paho's encoder and NewControlPacket table.", ref="4/C24"),
  "C25": dict(tech=TECH+"panic-site enumeration over packages gateway, client, transactions, topics, util: type-flow argument for every unchecked assertion (per transaction family and guarding state), compiler prove pass (-d=ssa/check_bce) or dominating length guard for index/slice, lockset for shared plain maps and for pointer fields reset to nil",
-   text="Every instruction that can panic on a packet-handling path is enumerated and needs a named argument, so a green result covers all packet sequences for the enumerated panic sources (failed assertion, index/slice out of range, explicit panic, nil pointer left by a concurrent reset, concurrent map write). Panics inside dependencies and resource exhaustion are not decided. The sleep transaction's DISCONNECT pointer reset is a known finding.",
+   text="Every instruction that can panic on a packet-handling path is enumerated and needs a named argument, so a green result covers all packet sequences for the enumerated panic sources (failed assertion, index/slice out of range, explicit panic, nil pointer left by a concurrent reset, concurrent map write). Panics inside dependencies and resource exhaustion are not decided. The sleep transaction's DISCONNECT pointer reset is a known finding. The packet pointer the client's PUBREL handler dereferences is stored on every path of the handler that creates the transaction.",
    note="Trusted: go/ssa, the installed compiler's bounds-check elimination.", ref="4/C25"),
  "C32": dict(tech=TECH+"sibling comparison of all topic resolver sites of client library, gateway and CLI tools (callee + argument origins per topic-ID type), origin tracing of the client identity on both ends, C05's lookup-consistency rules and C21's short-topic codec rule re-run",
    text="Both endpoints compute the ID<->name mapping with the same functions on the same key for every topic-ID type and every configuration; that both ends were given the same configuration is the operator's responsibility and is not decided.",
@@ -110,7 +110,7 @@ CHECKS = {
    note="Trusted: go/ssa. Both sides are checked against the protocol's tables frozen in the checker, so agreement is decided at the level of packet types, reply routing and states, not of timing.", ref="4/C26"),
 }
 
-CODEC = set('C01 C02 C03 C04 C06 C07 C08 C09 C11 C12 C13 C14 C16 C17 C23 C24 C27 C31 C32 C33'.split())
+CODEC = set('C01 C02 C03 C04 C05 C06 C07 C08 C09 C11 C12 C13 C14 C16 C17 C23 C24 C27 C31 C32 C33'.split())
 
 NA = {
 }
